@@ -18,7 +18,7 @@ RULE = ("seeded populations: 2 agent types, 3 states, >=2 agents per (type,state
         "every fifth names a second agent-based manager in the same request, every fourth repeats the request and then simulates again after reset_scenario_cache with another script (same run specs) and asks for the same selection. distinct_nontrivial = distinct (type,state,property) cells observed at some time with "
         "total != min != max != mean (pairwise different).")
 ASSUMPTIONS = ["where only part of the agents of a cell carry a numeric property (a String property re-declared as a number for some agents mid-run) total / min / max are judged, mean is not", "comparison tolerance 1e-9 relative"]
-REQUIRED = {"two_manager_requests": 10, "reruns_checked": 20, "multi_scenario_rounds": 20, "postcondition_evaluations": 500, "cells_checked": 5000, "output_cells_checked": 2000, "cells_all_different": 100}
+REQUIRED = {"direct_reruns_on_shorter_grid": 5, "two_manager_requests": 10, "reruns_checked": 20, "multi_scenario_rounds": 20, "postcondition_evaluations": 500, "cells_checked": 5000, "output_cells_checked": 2000, "cells_all_different": 100}
 BUDGET_S = {"quick": 100, "thorough": 1200}
 STATES = ["active", "idle", "busy"]
 VALS = [-7.5, -1.0, 0.0, 0.0, 1.0, 2.5, 3.0, 10.0, 1e6, 0.1, 42.0, -0.25]
@@ -255,6 +255,7 @@ def run_case(case):
             # asked again (no new simulation), then simulated again on the population as it stands: other script, same run specs
             w, oc = check_round(b, names[:1], sel, "first run, asked again")
             out_cells += oc
+            direct = (case["seed"] // 4) % 2 == 0 and sc["rounds"] >= 3
             for i, n in enumerate(names):
                 if w is not None:
                     break
@@ -262,7 +263,13 @@ def run_case(case):
                 del model.log[:]
                 model.step_counter = -1
                 model.script = make(case["seed"] * 131 + 7 + i, dt=sc["dt"], rounds=sc["rounds"])["script"]
-                b.reset_scenario_cache(scenario_manager="smAbm", scenario=n)
+                if direct:
+                    # the scenario object is run again directly, over a SHORTER period: only that run's times may be reported afterwards
+                    model.run_specs(1, sc["rounds"] - 1, float(sc["dt"]))
+                    model.run()
+                    counters["direct_reruns_on_shorter_grid"] = counters.get("direct_reruns_on_shorter_grid", 0) + 1
+                else:
+                    b.reset_scenario_cache(scenario_manager="smAbm", scenario=n)
             if w is None:
                 w, oc = check_round(b, names, sel, "second run after reset_scenario_cache")
                 out_cells += oc
